@@ -859,6 +859,21 @@ impl Prop for C02 {
         }
     }
 
+    fn sanitizer_cases(&self, seed: u64) -> Vec<Value> {
+        let mut v = vec![
+            json!({"kind": "all16", "tail": "t1", "lo": 0, "hi": 96}),
+            json!({"kind": "all16", "tail": "t3", "lo": 4000, "hi": 4064}),
+            json!({"kind": "codec_sweep", "stream": "s_short", "pairs": false, "from": 60, "to": 110}),
+            json!({"kind": "codec_strides", "stream": "s_props", "seed": seed, "randoms": 5}),
+        ];
+        for ty in ["PULL", "REP", "ROUTER", "PUB", "REQ"] {
+            for cuts in [vec![], vec![64usize], vec![10, 70, 95]] {
+                v.push(json!({"kind": "socket_cuts", "ty": ty, "variant": 0, "cuts": cuts, "mode": "released"}));
+            }
+        }
+        v
+    }
+
     fn floors(&self, tier: Tier) -> Vec<(&'static str, u64)> {
         vec![
             ("exhaustive_partitions_of_16_bytes", tier.pick(3, 5) * 32768),
